@@ -13,15 +13,23 @@ import sys, os, json, subprocess, shutil, tempfile, argparse, time
 
 VERIF = os.path.abspath(os.path.join(os.path.dirname(__file__), ".."))
 ap = argparse.ArgumentParser()
-ap.add_argument("out_dir")
+ap.add_argument("out_dir", help="directory with patch<n>.diff / demo<n>.py / meta<n>.json, or 'seeded' to re-evaluate /verif/seeded/<n>")
 ap.add_argument("n")
 ap.add_argument("--checks", default=None)
 ap.add_argument("--keep-as", default=None)
 a = ap.parse_args()
 
-patch = os.path.join(a.out_dir, "patch%s.diff" % a.n)
-demo = os.path.join(a.out_dir, "demo%s.py" % a.n)
-meta = json.load(open(os.path.join(a.out_dir, "meta%s.json" % a.n)))
+if a.out_dir == "seeded":
+    # re-evaluation of a kept change: /verif/seeded/<n>/{patch.diff, demo.py, meta.json}
+    d0 = os.path.join(VERIF, "seeded", a.n)
+    patch, demo = os.path.join(d0, "patch.diff"), os.path.join(d0, "demo.py")
+    m0 = json.load(open(os.path.join(d0, "meta.json")))
+    meta = {"property": m0["property"], "summary": m0.get("what_it_does"), "needs": m0.get("needs_to_manifest"), "files_changed": m0.get("files_changed")}
+    a.keep_as = a.keep_as or a.n
+else:
+    patch = os.path.join(a.out_dir, "patch%s.diff" % a.n)
+    demo = os.path.join(a.out_dir, "demo%s.py" % a.n)
+    meta = json.load(open(os.path.join(a.out_dir, "meta%s.json" % a.n)))
 prop = meta.get("property")
 checks = a.checks.split(",") if a.checks else [prop]
 wt = tempfile.mkdtemp(prefix="ois-seed-", dir="/var/tmp")
@@ -40,7 +48,7 @@ try:
     res["patch_applies"] = r.returncode == 0
     if r.returncode != 0:
         res["apply_error"] = r.stderr[-500:]
-        raise SystemExit
+        raise RuntimeError("patch does not apply")
     # 1. suite
     junit = os.path.join(wt, "junit.xml")
     sh(["/venv/bin/python", "-m", "pytest", "-q", "-p", "no:cacheprovider", "--timeout=900", "--junitxml=" + junit, "tests/"], cwd=wt)
@@ -79,6 +87,8 @@ try:
                 first = {"error": str(e)}
         res["checks"][c] = {"exit": r.returncode, "violations": len(lines), "with_input": sum(1 for l in lines if "no-failing-input-found" not in l),
                             "first": first, "wall_s": round(time.time() - t0, 1), "stderr_tail": r.stderr[-300:] if r.returncode not in (0, 1) else ""}
+except RuntimeError as e:
+    res["aborted"] = str(e)
 finally:
     sh(["git", "-C", "/repo", "worktree", "remove", "--force", wt])
     shutil.rmtree(wt, ignore_errors=True)
@@ -89,8 +99,9 @@ print(json.dumps(res, indent=1))
 if a.keep_as and res.get("confirmed"):
     d = os.path.join(VERIF, "seeded", a.keep_as)
     os.makedirs(d, exist_ok=True)
-    shutil.copy(patch, os.path.join(d, "patch.diff"))
-    shutil.copy(demo, os.path.join(d, "demo.py"))
+    if os.path.abspath(patch) != os.path.abspath(os.path.join(d, "patch.diff")):
+        shutil.copy(patch, os.path.join(d, "patch.diff"))
+        shutil.copy(demo, os.path.join(d, "demo.py"))
     json.dump({"property": prop, "what_it_does": meta.get("summary"), "needs_to_manifest": meta.get("needs"),
                "files_changed": meta.get("files_changed"),
                "what_was_run": {"suite": "%d/69 stable tests pass with the change" % res["suite_stable_pass"],
